@@ -89,6 +89,7 @@ class Harness(object):
                 if pointee['sz'] is None:
                     raise Abort('pointer to unsized %s' % pointee['n'])
                 obj = I.new_obj(pointee['sz'], name + '*', 'arg')
+                I.obj_align[obj.id] = pointee['al']
                 v = self.sym(I, root, t['to'], argi, name + '*', 0, True, overrides, depth + 1, t['to'])
                 I.write(obj, 0, pointee['sz'], v)
                 root.arg_objs.append((argi, base, obj.id, t['to'], t.get('mut'), None))
@@ -170,6 +171,48 @@ class Harness(object):
                 out.cells[off + o] = c
             for (o, tid), d in v.discr.items():
                 out.discr[(off + o, tid)] = d
+
+    # ---------------------------------------------------------------- enum specialisation
+    def enum_params(self, key):
+        """by-value parameters that are fieldless glam enums: [(argi, tyid, [variant index...])]"""
+        body = self.F.body(key)
+        out = []
+        if body is None:
+            return out
+        for i in range(body['argc']):
+            tyid = body['locals'][i + 1]
+            t = self.F.types[tyid]
+            if 'variants' in t and t.get('crate') == 'glam' and all(not v['fields'] for v in t['variants']['vs']):
+                out.append((i, tyid, list(range(len(t['variants']['vs'])))))
+        return out
+
+    def enum_value(self, tyid, variant):
+        t = self.F.types[tyid]
+        v = Agg(t['sz'])
+        d = int(t['variants']['vs'][variant]['discr'])
+        v.discr[(0, tyid)] = const(d & ((1 << 128) - 1), 16)
+        if 'tag' in t['variants']:
+            toff, tsz = t['variants']['tag']
+            v.cells[toff] = (tsz, const(d & ((1 << (8 * tsz)) - 1), tsz))
+        return v
+
+    def run_all(self, key, overrides=None, max_combos=64):
+        """interpret `key`; when it has fieldless-enum parameters, once per variant combination
+        (exhaustive partial evaluation).  yields (label, Root)"""
+        eps = self.enum_params(key)
+        if not eps:
+            yield ('', self.run(key, overrides))
+            return
+        combos = [[]]
+        for (argi, tyid, vs) in eps:
+            combos = [c + [(argi, tyid, v)] for c in combos for v in vs]
+        if len(combos) > max_combos:
+            yield ('', self.run(key, overrides))
+            return
+        for c in combos:
+            av = {argi: self.enum_value(tyid, v) for (argi, tyid, v) in c}
+            label = ','.join(self.F.types[tyid]['variants']['vs'][v]['name'] for (argi, tyid, v) in c)
+            yield (label, self.run(key, overrides, av))
 
     # ---------------------------------------------------------------- running
     def run(self, key, overrides=None, arg_values=None, interp=None):
